@@ -9,22 +9,29 @@ package nsqd
 //@ ghost gotQuery url.Values
 
 // The topic named by the query: 400 unless the query parses and has a valid `topic`; the topic is created on demand.
-// TRUSTED stub: the body reads req.URL.RawQuery, and the engine gives every read of a field of a net/http struct an arbitrary
-// value (ENGINE GAPS), so the nil check of req.URL cannot be discharged. The clauses below were checked by reading the 15 lines.
+// Verified (area J): the validation table of the query.
+//   query does not parse            -> 400 INVALID_REQUEST     (nothing looked up or created)
+//   no `topic` key                  -> 400 MISSING_ARG_TOPIC   (nothing looked up or created)
+//   first `topic` value not a valid name (1..64 chars of the name alphabet, optional #ephemeral) -> 400 INVALID_TOPIC
+//   otherwise                       -> GetTopic(first `topic` value) exactly once; the parsed query is returned
+// The frame is GetTopic's (the former trusted stub listed fewer locations than GetTopic can change).
+//@ pred jHttpErrT(e error, code int, text string) := dyntype(e) == typetag("http_api.Err") && unbox(e, "http_api.Err").Code == code && unbox(e, "http_api.Err").Text == text
 //@ func (s *httpServer) getTopicFromQuery(req *http.Request) (url.Values, *Topic, error)
 //@   props C10
-//@   trusted
-//@   requires s != nil && s.nsqd != nil && req != nil && req.URL != nil
+//@   requires s != nil && s.nsqd != nil && s.nsqd.ci != nil && http_api.mServerReq(req)
 //@   ensures[errors] result2 != nil ==> httpErr(result2, 400) && getTopicCalls == old(getTopicCalls)
+//@   ensures[error-texts] result2 != nil ==> jHttpErrT(result2, 400, "INVALID_REQUEST") || jHttpErrT(result2, 400, "MISSING_ARG_TOPIC") || jHttpErrT(result2, 400, "INVALID_TOPIC")
+//@   ensures[error-returns-nothing] result2 != nil ==> result0 == nil && result1 == nil
 //@   ensures[topic] result2 == nil ==> result1 != nil && result1 == gotTopic && getTopicCalls == old(getTopicCalls) + 1 && validName(gotTopicName) && result1.idFactory != nil && result1.nsqd != nil && result1.backend != nil
 //@   ensures[query] result2 == nil ==> result0 != nil && forall k string :: {result0[k]} has(result0, k) ==> len(result0[k]) >= 1
-//@   modifies getTopicCalls, gotTopic, gotTopicName, gotTopicAuthSeq, gotTopicAuthOK, NSQD.topicMap, mapstore(map[string]*Topic), gotQuery
+//@   ensures[topic-arg] result2 == nil ==> has(result0, "topic") && gotTopicName == result0["topic"][0]
+//@   modifies getTopicFrame, gotQuery
 //@   onreturn gotQuery := result0
 
 // POST /pub?topic=..[&defer=ms]
 //@ func (s *httpServer) doPUB(w http.ResponseWriter, req *http.Request, ps httprouter.Params) (interface{}, error)
 //@   props C10 C01 C04
-//@   requires s != nil && s.nsqd != nil && req != nil && req.URL != nil
+//@   requires s != nil && s.nsqd != nil && s.nsqd.ci != nil && http_api.mServerReq(req)
 //@   ensures[status] result1 != nil ==> httpErr(result1, 400) || httpErr(result1, 413) || httpErr(result1, 500) || httpErr(result1, 503)
 //@   ensures[topic-name-valid] getTopicCalls != old(getTopicCalls) ==> validName(gotTopicName)
 //@   ensures[rejected-enqueues-nothing] result1 != nil ==> putCalls == old(putCalls) || (putCalls == old(putCalls) + 1 && putErr != nil && httpErr(result1, 503))
